@@ -148,7 +148,7 @@ func concreteModel(g *Gen, r *Result, secs int) ([]probe, string) {
 	if len(terms) > 0 {
 		gv = "(get-value (" + strings.Join(terms, " ") + "))\n"
 	}
-	q := obligQuery(dropQuantified(g.preludeText(true)), dropQuantified(g.s.body()), r.Ob, gv)
+	q := obligQuery(dropQuantified(g.preludeText(true)), dropQuantified(g.s.bodyFor(r.Ob.Ranges, r.Ob.PC, r.Ob.Goal)), r.Ob, gv)
 	file := strings.TrimSuffix(r.File, ".smt2") + ".str.smt2"
 	os.WriteFile(file, []byte(q), 0o644)
 	sc := solverCfg{"cvc5-strings", func(f string, s int) []string {
